@@ -9,11 +9,12 @@ from the input are uninterpreted (`Sem`).
 
 General theorems (every table, every `Sem`, all histories before and after the switch):
   retarget_eq_fresh, no_stale_result, no_result_survives, epochs_slice_duration.
-Generated side condition `AnalyzerSpec.retargetOK` decided per class over all configurations; where
-today's code fails it (state copied from the input in `__init__` and never refreshed; `reset`
-walking only the own class dictionary) the statements are about edits of the generated table, so
-that they hold before and after the proposed repairs: `…_intended`, `…_counterexample`, and concrete
-runs of the machine on which a stale result is returned (`…_stale_witness`).
+Generated side condition `AnalyzerSpec.retargetOK` decided per class over all configurations
+(`<Class>_retarget`, `subclass_retarget`).  The defects found (state copied from the input in
+`__init__` and never refreshed in 5 analyzers; `reset` walking only the own class dictionary) are
+repaired in the repo; `unrefreshed_state_*` / `own_dict_reset_*` show on edits of the generated tables
+that the side condition refutes exactly those defects, with concrete runs of the machine returning a
+stale result (non-vacuity).
 -/
 import Nitime.Lemmas.OneTime
 import Nitime.Generated.Analyzers
@@ -237,63 +238,50 @@ theorem retargetOK_of_okAll {sp : AnalyzerSpec} {m : Bool} (h : okAll sp m) (cfg
 /-- the shape of `ResetMixin.reset` was recognised by the translator -/
 theorem reset_shape_known : resetShapeKnown = true := by decide
 
-/-- classes for which re-targeting is equivalent to rebuilding, whichever dictionaries `reset` walks
-    (their only inherited one-time attribute, `parameterlist`, depends on nothing that changes) -/
-theorem BaseAnalyzer_retarget : okAll spec_BaseAnalyzer false := by decide
-theorem SpectralAnalyzer_retarget : okAll spec_SpectralAnalyzer false := by decide
-theorem HilbertAnalyzer_retarget : okAll spec_HilbertAnalyzer false := by decide
-theorem MorletWaveletAnalyzer_retarget : okAll spec_MorletWaveletAnalyzer false := by decide
-theorem CorrelationAnalyzer_retarget : okAll spec_CorrelationAnalyzer false := by decide
-theorem NormalizationAnalyzer_retarget : okAll spec_NormalizationAnalyzer false := by decide
-theorem EventRelatedAnalyzer_retarget : okAll spec_EventRelatedAnalyzer false := by decide
-theorem Epochs_retarget : okAll spec_Epochs false := by decide
+/-- the side condition for both shapes of `reset` (own class dictionary / whole MRO) -/
+def okBoth (sp : AnalyzerSpec) : Prop := okAll sp false ∧ okAll sp true
+instance (sp : AnalyzerSpec) : Decidable (okBoth sp) := by unfold okBoth; infer_instance
+
+/-- classes for which re-targeting is equivalent to rebuilding (their only inherited one-time
+    attribute, `parameterlist`, depends on nothing that changes, so either reset shape will do) -/
+theorem BaseAnalyzer_retarget : okBoth spec_BaseAnalyzer := by decide
+theorem SpectralAnalyzer_retarget : okBoth spec_SpectralAnalyzer := by decide
+theorem HilbertAnalyzer_retarget : okBoth spec_HilbertAnalyzer := by decide
+theorem MorletWaveletAnalyzer_retarget : okBoth spec_MorletWaveletAnalyzer := by decide
+theorem CorrelationAnalyzer_retarget : okBoth spec_CorrelationAnalyzer := by decide
+theorem NormalizationAnalyzer_retarget : okBoth spec_NormalizationAnalyzer := by decide
+theorem EventRelatedAnalyzer_retarget : okBoth spec_EventRelatedAnalyzer := by decide
+theorem Epochs_retarget : okBoth spec_Epochs := by decide
 
 /-- FilterAnalyzer: with `ub` given; with `ub=None` `filtered_fourier` leaves `ub` filled in, which
     an uninterpreted `F` cannot tell from None (decided per run only) -/
 theorem FilterAnalyzer_retarget_partial :
     ∀ cfg ∈ allCfgs spec_FilterAnalyzer.flagNames.length, ¬ cfg.contains f_FilterAnalyzer_none_ub →
-      spec_FilterAnalyzer.retargetOK false cfg = true := by decide
+      spec_FilterAnalyzer.retargetOK false cfg = true ∧ spec_FilterAnalyzer.retargetOK true cfg = true := by
+  decide
 
-/-! #### state copied from the input in `__init__` and not refreshed by `set_input`
-(findings C14 <Class>/…/stale-after-set_input) -/
+/-! #### repaired: state copied from the input in `__init__` is now refreshed by `set_input`
+(findings C14 <Class>/*/differs-from-new-object/…; repo commits db6f10d, f2fb95f, a7d62eb, 31eed39):
+the regenerated tables (with the `refreshed` slots of the new `set_input` overrides) satisfy the
+side condition. -/
+theorem CoherenceAnalyzer_retarget : okBoth spec_CoherenceAnalyzer := by decide
+theorem SparseCoherenceAnalyzer_retarget : okBoth spec_SparseCoherenceAnalyzer := by decide
+theorem MTCoherenceAnalyzer_retarget : okBoth spec_MTCoherenceAnalyzer := by decide
+theorem GrangerAnalyzer_retarget : okBoth spec_GrangerAnalyzer := by decide
+theorem SNRAnalyzer_retarget : okBoth spec_SNRAnalyzer := by decide
 
-/-- the table if `set_input` recomputed everything `__init__` derives from the input -/
-def refreshedAll (sp : AnalyzerSpec) : AnalyzerSpec := { sp with refreshed := sp.initDerived }
 /-- the table with the inherited `set_input` (refreshes nothing) -/
 def refreshedNone (sp : AnalyzerSpec) : AnalyzerSpec := { sp with refreshed := [] }
 
-/-- `delay`'s in-place unwrap (finding C13) is not this property's concern: taken out here -/
-def coherenceNoUnwrap : AnalyzerSpec :=
-  spec_CoherenceAnalyzer.strip g_CoherenceAnalyzer_delay [g_CoherenceAnalyzer_phase] []
+/-- The side condition is not idle: take the refreshing out of the generated tables (the defect that
+    was repaired) and it is refuted, for every configuration and either reset shape. -/
+theorem unrefreshed_state_refutes_side_condition :
+    ∀ sp ∈ [spec_CoherenceAnalyzer, spec_SparseCoherenceAnalyzer, spec_MTCoherenceAnalyzer,
+            spec_GrangerAnalyzer, spec_SNRAnalyzer],
+      ∀ cfg ∈ allCfgs sp.flagNames.length, ∀ m ∈ [false, true],
+        (refreshedNone sp).retargetOK m cfg = false := by decide
 
-theorem CoherenceAnalyzer_intended : okAll (refreshedAll coherenceNoUnwrap) false := by decide
-theorem CoherenceAnalyzer_counterexample :
-    ∀ cfg ∈ allCfgs spec_CoherenceAnalyzer.flagNames.length,
-      (refreshedNone coherenceNoUnwrap).retargetOK false cfg = false := by decide
-
-theorem MTCoherenceAnalyzer_intended : okAll (refreshedAll spec_MTCoherenceAnalyzer) false := by decide
-theorem MTCoherenceAnalyzer_counterexample :
-    ∀ cfg ∈ allCfgs spec_MTCoherenceAnalyzer.flagNames.length,
-      (refreshedNone spec_MTCoherenceAnalyzer).retargetOK false cfg = false := by decide
-
-theorem SparseCoherenceAnalyzer_intended : okAll (refreshedAll spec_SparseCoherenceAnalyzer) false := by
-  decide
-theorem SparseCoherenceAnalyzer_counterexample :
-    ∀ cfg ∈ allCfgs spec_SparseCoherenceAnalyzer.flagNames.length,
-      (refreshedNone spec_SparseCoherenceAnalyzer).retargetOK false cfg = false := by decide
-
-theorem GrangerAnalyzer_intended : okAll (refreshedAll spec_GrangerAnalyzer) false := by decide
-theorem GrangerAnalyzer_counterexample :
-    ∀ cfg ∈ allCfgs spec_GrangerAnalyzer.flagNames.length,
-      (refreshedNone spec_GrangerAnalyzer).retargetOK false cfg = false := by decide
-
-theorem SNRAnalyzer_intended : okAll (refreshedAll spec_SNRAnalyzer) false := by decide
-theorem SNRAnalyzer_counterexample :
-    ∀ cfg ∈ allCfgs spec_SNRAnalyzer.flagNames.length,
-      (refreshedNone spec_SNRAnalyzer).retargetOK false cfg = false := by decide
-
-/-- every generated table refreshes either nothing or only derived slots (so it is covered by the
-    `…_intended` / `…_counterexample` pair or lies between them) -/
+/-- every generated table refreshes only derived slots -/
 theorem refreshed_within_derived :
     ∀ sp ∈ allSpecs, sp.refreshed.all (sp.initDerived.contains ·) = true := by decide
 
@@ -307,7 +295,7 @@ def numSem : Sem Nat Nat :=
 
 /-- SNRAnalyzer with the inherited `set_input`: `mt_signal_psd` after the switch is computed from
     the old `signal` (concrete run: input 3 replaced by 500) -/
-theorem SNRAnalyzer_stale_witness :
+theorem unrefreshed_state_stale_witness :
     let sp := refreshedNone spec_SNRAnalyzer
     let spec := sp.resolve []
     let s := retarget numSem (sp.walked false) sp.refreshed [] (fun _ => none) 500
@@ -358,21 +346,24 @@ theorem epochs_slice_duration (m : Bool) (sp : AnalyzerSpec)
       · simpa [hc] using hp p hpp)
     hnew h h' g_Epochs_duration
 
-/-- user subclasses: `reset` walking the whole MRO reaches the inherited attributes … -/
-theorem subclass_intended :
+/-- user subclasses that add nothing: with the reset shape of the current source (generated
+    `resetWalksMRO`; repaired in repo commit f49c286) re-targeting / slicing is equivalent to rebuilding -/
+theorem subclass_retarget :
     ∀ sp ∈ [spec_Epochs, spec_CorrelationAnalyzer, spec_HilbertAnalyzer, spec_NormalizationAnalyzer,
-            spec_SpectralAnalyzer],
-      okAll sp.subclass true := by decide
+            spec_SpectralAnalyzer, spec_CoherenceAnalyzer, spec_GrangerAnalyzer, spec_SNRAnalyzer,
+            spec_MTCoherenceAnalyzer, spec_MorletWaveletAnalyzer],
+      okAll sp.subclass resetWalksMRO := by decide
 
-/-- … walking only `self.__class__.__dict__` it reaches none of them -/
-theorem subclass_counterexample :
+/-- non-vacuity: a `reset` walking only `self.__class__.__dict__` reaches none of the inherited
+    attributes, and the side condition is refuted -/
+theorem own_dict_reset_refutes_subclasses :
     ∀ sp ∈ [spec_Epochs, spec_CorrelationAnalyzer, spec_HilbertAnalyzer, spec_NormalizationAnalyzer,
             spec_SpectralAnalyzer],
       ∀ cfg ∈ allCfgs sp.flagNames.length, sp.subclass.retargetOK false cfg = false := by decide
 
 /-- a subclass of `Epochs` sliced after `duration` was read keeps the parent's duration when
     `reset` walks only the own class dictionary (concrete run) -/
-theorem Epochs_subclass_stale_witness :
+theorem own_dict_reset_stale_witness :
     let sp := spec_Epochs.subclass
     let spec := sp.resolve []
     let s1 := (read spec numSem g_Epochs_duration (construct numSem [] (fun p => some p) 0)).1
@@ -393,7 +384,7 @@ example :
       = (read (spec_CorrelationAnalyzer.resolve []) numSem g_CorrelationAnalyzer_xcorr_norm
           (construct numSem [] (newParams [] (fun _ => none) (fun p => some p)) 500)).2 :=
   retarget_eq_fresh _ (spec_CorrelationAnalyzer.present []) _ [] [] [] numSem _ _ 3 500
-    (retargetOK_of_okAll CorrelationAnalyzer_retarget [] (by decide)) (by decide) (by decide)
+    (retargetOK_of_okAll CorrelationAnalyzer_retarget.1 [] (by decide)) (by decide) (by decide)
     (by decide) _ [] _
 
 example : (read (spec_CorrelationAnalyzer.resolve []) numSem g_CorrelationAnalyzer_xcorr_norm
